@@ -106,6 +106,16 @@ CHECKS = {
             "REPAIR, exact before/after); repairing twice is a no-op. Sampled.",
             "schema field names are generated only as direct children of the schema's block; Python's Decimal decides losslessness",
             "DESIGN.md §3 C11"),
+    "C12": ("exploration",
+            "independent llama.cpp-syntax GBNF parser (with error recovery) as validity predicate over generated schemas",
+            "Generated schemas (field-name pool covering every branch of the compiler's name handling and its own rule names; "
+            "chains with hostile ENUM/CONST values and 40 REGEX patterns) are compiled through every route (schema text, "
+            "META.CONTRACT, API objects; fresh and reused compiler; octave_compile_grammar, octave_eject gbnf, grammar_hint) and "
+            "each grammar must parse under llama.cpp's syntax, define root and every reference, no rule twice, no empty "
+            "alternative. Sampled; the packaged schemas are always included.",
+            "my reading of llama.cpp's grammar-parser is the definition of well-formed; four malformation classes are genuine "
+            "known findings with per-class signatures, anything else is a violation",
+            "DESIGN.md §3 C12"),
 }
 
 NOT_YET = {
